@@ -24,7 +24,11 @@ TEXT = {
               'error, never both (run_output_xor_error). Whole-template form (render_error_line_in_tree, by induction over the render '
               'tree, for every writer behaviour): every failure of rendering an include-free node tree, and every break/continue that '
               'reaches the top, is a located error whose line is the line of one of the tree\'s tags, objects or texts (or 0 for a '
-              'writer failure at a node without location at top level). Tie: the `errloc` stream places every kind of failing construct at every '
+              'writer failure at a node without location at top level). From source bytes (run_error_at_tag_or_object, for every source text, '
+              'delimiter set, value layer, file system and environment): whenever run returns an error for a source without an include tag, '
+              'compile-time or render-time, some token t of scan that is a TAG or an OBJECT has e.line = t.line = start line + number of '
+              'newline bytes of the source before t, the token sources partition the source, and the error names the configured path; '
+              'for spelled templates the error points at an item that is a tag or object (run_spell_error_at_item); with an include tag the line can be one of the included file instead (include_error_line). Tie: the `errloc` stream places every kind of failing construct at every '
               'nesting depth, with/without path and start line, compares model and real engine (kind, line, path, cause) and '
               'checks the line against the known position.'),
     "design_ref": 'DESIGN.md 6 C07',
